@@ -241,6 +241,13 @@ def check_normalisation(run: Run) -> None:
         n_app += 1
         in_fence = "in_fence" in facts
         closing = any(f.startswith(("result == ", "verdict == ")) and "close" in f for f in facts) or any(" == 'close'" in f for f in facts)
+        # a boolean local that says "this line closes the fence": every binding of it is a conjunction that contains the
+        # match of FENCE_PATTERN on this line (a closing fence is a fence line; the length comparison is R05.5's concern)
+        for f in facts:
+            if f.isidentifier() and not closing:
+                ds = [a.value for a in walk_no_nested(fi.node) if isinstance(a, ast.Assign) and len(a.targets) == 1 and isinstance(a.targets[0], ast.Name) and a.targets[0].id == f]
+                if ds and all((any(isinstance(x, ast.Name) and x.id in ("match", "fence_match", "m") for x in ast.walk(d)) and ("len(" in _text(d) or ">=" in _text(d) or "==" in _text(d))) or (isinstance(d, ast.Compare) and any(isinstance(x, ast.Constant) and x.value == "close" for x in ast.walk(d))) for d in ds):
+                    closing = True
         opening = "!in_fence" in facts
         arg = _text(expr)
         content_path = in_fence and not closing and not opening
